@@ -259,6 +259,11 @@ Example C01_sender_drains_nonvacuous :
 Proof. vm_compute. repeat split. Qed.
 Print Assumptions C01_sender_drains_nonvacuous.
 
+(** MaxDataLen follows Go's shrinkForLengthField for every budget (C08's model of the loop), also beyond 16383 *)
+Example C01_max_data_len_large : max_data_len 0 0 16400 = 16394 /\ max_data_len 0 0 1452 = 1448 /\ max_data_len 0 0 66 = 63.
+Proof. vm_compute. repeat split. Qed.
+Print Assumptions C01_max_data_len_large.
+
 (** Regression examples: the three witnesses that the faithful model of the UNREPAIRED code
     produced (and the harness replays on the implementation as scripted cases -1, -4, -5 of unit
     sendstream), evaluated on the model of the repaired code.
@@ -366,19 +371,36 @@ Theorem C01_net_processed_once :
 Proof. exact processed_from_sent. Qed.
 Print Assumptions C01_net_processed_once.
 
+(** Prepared for C07's repaired history (trimming raises deletedBelow, no watermark ever set): without a
+    watermark in the application-data space the conclusion is unconditional.  On the CURRENT (unrepaired)
+    received_packet_history.go the premise fails on a reachable schedule - more than MaxNumAckRanges gaps, then
+    a replay of a forgotten packet: the packet is processed again and its DATAGRAM frame delivered twice;
+    monitor simdgram/dup-replay-beyond-ack-ranges shows it on the implementation. *)
+Theorem C01_net_processed_once_no_watermark :
+  forall (aead_open : Z -> Z -> list Z -> list Z -> option (list Z)) (hp_mask : list Z -> list Z)
+         (aead_seal : Z -> Z -> list Z -> list Z -> list Z) (sealed : Z -> Z -> list Z -> list Z -> Prop),
+  (forall pn kp ad c p, aead_open pn kp ad c = Some p -> sealed pn kp ad p /\ c = aead_seal pn kp ad p) ->
+  forall sent : list (Z * Z * list Z),
+  (forall pn kp hdr p, sealed pn kp hdr p -> In (pn, kp, p) sent) ->
+  forall nevs : list nev,
+  let ns := nrun aead_open hp_mask nst0 nevs in
+  n_W ns 2%nat = None -> NoDup (pns ns) /\ NoDup (n_procs ns).
+Proof. exact processed_once_no_watermark. Qed.
+Print Assumptions C01_net_processed_once_no_watermark.
+
 (** C01_end_to_end_prefix / C01_complete_if_covered in their final form:
     SendStream.Model o packets o arbitrary network o (C05 unpack . C07 duplicate filter) o RecvStream.Model.
     Remaining hypotheses: [ideal], [honest] (above); [packed]: the plaintexts the sender sealed contain, for this
     stream, only frames popStreamFrame returned (packer + wire codec, C08); [delivered_is_handled]: the stream
-    layer is fed with the STREAM frames of the processed packets, in processing order; [tracked] (above). *)
+    layer is fed with the STREAM frames of the processed packets, in processing order.  No hypothesis on the
+    received-packet history is needed here (a packet processed twice only delivers its frames twice, which the
+    stream layer absorbs); [frames_in] is an uninterpreted parser: the link plaintext <-> frames IS [packed]. *)
 Theorem C01_end_to_end_prefix :
   forall aead_seal aead_open hp_mask sealed,
   (forall pn kp ad c p, aead_open pn kp ad c = Some p -> sealed pn kp ad p /\ c = aead_seal pn kp ad p) ->
   forall (sent : list (Z * Z * list Z)),
   (forall pn kp hdr p, sealed pn kp hdr p -> In (pn, kp, p) sent) ->
   forall (frames_in : list Z -> list frame) (nevs : list nev),
-  (forall q, In q (pns (nrun aead_open hp_mask nst0 nevs)) ->
-     ~ RecvPH.ProofsHist.le_opt q (n_W (nrun aead_open hp_mask nst0 nevs) 2%nat)) ->
   forall (sid0 : Z) (rsa : bool) (swin cwin : Z) (ops : list op) (w : Z) (evs : list cev),
   let s := fst (run (init sid0 rsa swin cwin) ops) in
   let E := frames_of (snd (run (init sid0 rsa swin cwin) ops)) in
@@ -397,8 +419,6 @@ Theorem C01_complete_if_covered :
   forall (sent : list (Z * Z * list Z)),
   (forall pn kp hdr p, sealed pn kp hdr p -> In (pn, kp, p) sent) ->
   forall (frames_in : list Z -> list frame) (nevs : list nev),
-  (forall q, In q (pns (nrun aead_open hp_mask nst0 nevs)) ->
-     ~ RecvPH.ProofsHist.le_opt q (n_W (nrun aead_open hp_mask nst0 nevs) 2%nat)) ->
   forall (sid0 : Z) (rsa : bool) (swin cwin : Z) (ops : list op) (w : Z) (evs : list cev),
   let s := fst (run (init sid0 rsa swin cwin) ops) in
   let E := frames_of (snd (run (init sid0 rsa swin cwin) ops)) in
